@@ -113,7 +113,7 @@ class World(BaseWorld):
             k = tuple(sorted(rng.sample(vs, d), key=sort_key))
             terms[k] = rng.choice(coefs)
         if rng.random() < offset_p:
-            terms[()] = rng.choice([-3, -2, -1, 1, 2, 3])
+            terms[()] = rng.choice([-3, -2, -1, 1, 2, 3, -5, 5, -7, 7])
         return [[enc_key(k), v] for k, v in terms.items()]
 
     def gen_special(self, rng):
@@ -751,7 +751,7 @@ def gen_cfg(rng, prop, tier):
         "max_cons": rng.choice([1, 2, 3, 5]),
         "w_logic": 0, "w_obj": rng.choice([0, 0.5, 1.5]), "w_hist": rng.choice([0, 0.5, 1.5]), "w_obs": rng.choice([0, 0.5]),
         "n_ops": rng.choice([2, 4, 7, 12]),
-        "half_bounds": tier == "thorough",
+        "half_bounds": tier == "thorough" or rng.random() < 0.3,
     }
     if prop in ("C02", "C03") and rng.random() < 0.15:
         # "deep" histories: many ancilla-bearing constraints on one model (dozens of ancillas).  Truth-table clauses are skipped
